@@ -181,6 +181,12 @@ type Program struct {
 	EndObCommit bool
 	// fault plan: percentages for region errors on clean-up RPCs / other RPCs, topology changes inside an RPC
 	CleanupErrPct, OtherErrPct, TopoPct int
+	// Family names the generator family of the program ("" = the general generator); Variant the way the family's
+	// aggressive-locking sequence ends (evidence only)
+	Family, Variant string
+	// EndInAgg: Commit / Rollback is called while the transaction is still in aggressive-locking mode (the
+	// current attempt has locked nothing: the client releases the previous attempt's locks itself)
+	EndInAgg bool
 }
 
 func (p *Program) String() string {
@@ -213,7 +219,14 @@ func (p *Program) String() string {
 		}
 	}
 	sort.Strings(ex)
-	return fmt.Sprintf("%s exists=%v splits=%v [%s] %s faults=%d/%d/%d", m, ex, p.Splits, strings.Join(ss, " ; "), end, p.CleanupErrPct, p.OtherErrPct, p.TopoPct)
+	if p.EndInAgg {
+		end += "{in-aggressive-locking}"
+	}
+	fam := ""
+	if p.Family != "" {
+		fam = " family=" + p.Family + "/" + p.Variant
+	}
+	return fmt.Sprintf("%s exists=%v splits=%v [%s] %s faults=%d/%d/%d%s", m, ex, p.Splits, strings.Join(ss, " ; "), end, p.CleanupErrPct, p.OtherErrPct, p.TopoPct, fam)
 }
 
 type gen struct {
@@ -588,4 +601,176 @@ func (g *gen) optimistic(p *Program) {
 	if p.Commit && g.rng.Intn(100) < 65 {
 		g.endObstacle(p, written)
 	}
+}
+
+// ---------------------------------------------------------------- family: aggressive locking over several regions
+
+const famAggMR = "agg-multi-region"
+
+// aggMultiRegion generates one program of the family "aggressive (fair) locking over several regions": a layout of
+// 4..8 regions, one statement in aggressive-locking mode that locks 2..6 keys spread over the regions ONE BY ONE
+// (single-key calls: the only way keys stay in the stage), in ascending, descending or arbitrary order, and then
+// ends in one of the ways a statement can end:
+//
+//	cancel                         - every lock of the attempt is released
+//	done                           - the locks become ordinary locks, released by Commit / Rollback
+//	retry [lock other keys] cancel - the retried statement needs other keys: at least two locks of the previous
+//	retry [lock other keys] done     attempt (in different regions, layout permitting) are redundant
+//	retry [...] retry [...] ...    - the redundant locks are released by the next RetryAggressiveLocking
+//	retry, then Commit / Rollback  - the transaction ends while still in the mode (nothing locked in the current
+//	                                 attempt): the client cancels the stage itself
+//
+// Few obstacles and faults: the family is about routing the release requests of keys that the client keeps in
+// unordered containers, under a layout that does not change (a quarter of the programs add topology changes and
+// region errors on top).
+func (g *gen) aggMultiRegion(seed int64) *Program {
+	p := &Program{Seed: seed, Pess: true, Exists: map[string]bool{}, Family: famAggMR}
+	for _, k := range keys {
+		p.Exists[k] = g.rng.Intn(100) < 55
+	}
+	// 3..7 borders out of 7: 4..8 regions
+	perm := g.rng.Perm(len(splitPoints))
+	nb := 3 + g.rng.Intn(len(splitPoints)-2)
+	for _, i := range perm[:nb] {
+		p.Splits = append(p.Splits, splitPoints[i])
+	}
+	sort.Strings(p.Splits)
+	rough := g.rng.Intn(4) == 0
+	switch {
+	case !rough:
+	case g.rng.Intn(2) == 0:
+		p.CleanupErrPct, p.OtherErrPct, p.TopoPct = 35, 6, 10
+	default:
+		p.CleanupErrPct, p.OtherErrPct, p.TopoPct = 70, 0, 25
+	}
+	topo := func() string {
+		if rough {
+			return g.topo()
+		}
+		return ""
+	}
+	order := func(ks []string) []string {
+		switch g.rng.Intn(3) {
+		case 0:
+			sort.Strings(ks)
+		case 1:
+			sort.Sort(sort.Reverse(sort.StringSlice(ks)))
+		}
+		return ks
+	}
+	lockOne := func(k string) Step {
+		s := Step{Kind: kLock, Keys: []string{k}, Topo: topo()}
+		switch g.rng.Intn(6) {
+		case 0:
+			s.RV = true
+		case 1:
+			s.CE = true
+		case 2:
+			s.RV, s.CE = true, true
+		}
+		s.NoWait = g.rng.Intn(2) == 0
+		if g.rng.Intn(100) < 6 {
+			g.obstacle(&s, p.Exists, false)
+		}
+		return s
+	}
+	pick := func(from []string, n int) []string {
+		pm := g.rng.Perm(len(from))
+		out := make([]string, 0, n)
+		for _, i := range pm[:n] {
+			out = append(out, from[i])
+		}
+		return out
+	}
+	p.Steps = append(p.Steps, Step{Kind: kAggStart})
+	cur := order(pick(keys, 2+g.rng.Intn(5)))
+	for _, k := range cur {
+		p.Steps = append(p.Steps, lockOne(k))
+	}
+	// next draws the key set of a retried attempt: at least two keys of the previous attempt are not needed again
+	next := func(prev []string, empty bool) []string {
+		if empty {
+			return nil
+		}
+		keep := pick(prev, g.rng.Intn(len(prev)-1)) // 0 .. len-2 of the previous keys
+		var others []string
+		for _, k := range keys {
+			in := false
+			for _, q := range prev {
+				in = in || q == k
+			}
+			if !in {
+				others = append(others, k)
+			}
+		}
+		add := pick(others, g.rng.Intn(min(len(others), 3)+1))
+		return order(append(keep, add...))
+	}
+	retry := func(empty bool) {
+		p.Steps = append(p.Steps, Step{Kind: kAggRetry, Topo: topo()})
+		cur = next(cur, empty)
+		for _, k := range cur {
+			p.Steps = append(p.Steps, lockOne(k))
+		}
+	}
+	switch x := g.rng.Intn(100); {
+	case x < 22:
+		p.Variant = "cancel"
+		p.Steps = append(p.Steps, Step{Kind: kAggCancel, Topo: topo()})
+	case x < 32:
+		p.Variant = "done"
+		p.Steps = append(p.Steps, Step{Kind: kAggDone, Topo: topo()})
+	case x < 50:
+		p.Variant = "retry+cancel"
+		retry(false)
+		p.Steps = append(p.Steps, Step{Kind: kAggCancel, Topo: topo()})
+	case x < 68:
+		p.Variant = "retry+done"
+		retry(false)
+		p.Steps = append(p.Steps, Step{Kind: kAggDone, Topo: topo()})
+	case x < 82:
+		p.Variant = "retry+retry"
+		retry(false)
+		if len(cur) >= 2 {
+			retry(g.rng.Intn(3) == 0)
+		} else {
+			retry(true)
+		}
+		if g.rng.Intn(2) == 0 {
+			p.Steps = append(p.Steps, Step{Kind: kAggCancel, Topo: topo()})
+		} else {
+			p.Steps = append(p.Steps, Step{Kind: kAggDone, Topo: topo()})
+		}
+	default:
+		p.Variant = "retry+end-in-mode"
+		if g.rng.Intn(3) == 0 && len(cur) >= 3 {
+			retry(false)
+		}
+		if len(cur) >= 2 {
+			retry(true)
+			p.EndInAgg = true
+		} else {
+			p.Variant = "retry+cancel"
+			p.Steps = append(p.Steps, Step{Kind: kAggCancel})
+		}
+	}
+	if !p.EndInAgg && g.rng.Intn(3) == 0 {
+		// the statement (or the next one) writes a row
+		s := Step{Kind: kSet, Keys: []string{g.key()}, NoWait: true}
+		p.Steps = append(p.Steps, s)
+	}
+	p.Commit = g.rng.Intn(2) == 0
+	for i := range p.Steps {
+		st := &p.Steps[i]
+		switch st.Kind {
+		case kAggRetry, kAggCancel, kAggDone:
+			st.Ctx = g.ctxKind(false)
+		case kLock, kSet:
+			if g.rng.Intn(3) == 0 {
+				st.Ctx = g.ctxKind(g.rng.Intn(8) == 0)
+			}
+		}
+	}
+	p.EndCtx = g.ctxKind(false)
+	return p
 }
